@@ -73,7 +73,7 @@ for _d in TOPS:
 DATA = [b"", b"a", b"b", b"ab", b"ba", b"abc", b"hello world"]
 SHAPES = ["single", "list", "tuple", "dict", "nested"]
 
-_S = {"count": 0, "world": None, "tasks": None}
+_S = {"count": 0, "ccount": 0, "world": None, "tasks": None}
 
 
 # ---------------------------------------------------------------------- workflow
@@ -99,6 +99,30 @@ def flatten(shape, n, res):
     return [res[0]] + list(res[1]["a"])
 
 
+def observe(w, o):
+    """what the downstream task looks at: size of a File / ContentFile, number of member files of a Dir / FileSet;
+    nothing for immutable classes, staging values and plain leaves"""
+    rf = w.rf
+    if isinstance(o, (rf.IFile, rf.IFileSet, rf.IDir)) or not isinstance(o, (rf.File, rf.FileSet)):
+        return 0
+    if isinstance(o, rf.File):
+        return o.size() if o.exists() else -1
+    return len(list(o))
+
+
+def expected_observation(spec_leaf, snap):
+    """the harness's own computation of the same observation from its snapshot (oracle, independent of redun)"""
+    k = spec_leaf[0]
+    if k in ("plain", "staging") or spec_leaf[1] == "imm":
+        return 0
+    if k == "file":
+        e = snap.get(tuple(spec_leaf[2]))
+        return -1 if e is None else len(e[0])
+    d = tuple(spec_leaf[2])
+    rec = True if k == "dir" else spec_leaf[3]
+    return sum(1 for p in snap if p[:len(d)] == d and (len(p) > len(d) if rec else len(p) == len(d) + 1))
+
+
 def tasks():
     if _S["tasks"] is None:
         from redun import task
@@ -116,9 +140,14 @@ def tasks():
 
         def make_shallow(case_id: str, writes: tuple, outs: tuple, shape: str):
             return body(case_id, writes, outs, shape)
+        def consume(x, shape: str, n: int):
+            _S["ccount"] += 1
+            w = _S["world"]
+            return [observe(w, o) for o in flatten(shape, n, x)]
         _S["tasks"] = {
             "full": task(namespace="verif_gj_c04", name="make")(make),
             "shallow": task(namespace="verif_gj_c04", name="make_shallow", check_valid="shallow")(make_shallow),
+            "consume": task(namespace="verif_gj_c04", name="consume")(consume),
         }
     return _S["tasks"]
 
@@ -161,8 +190,9 @@ def gen_case(rng, nsteps):
         if p not in seen:
             seen.add(p)
             ws.append((p, d))
+    chain = rng.random() < 0.35 and not any(o[0] == "staging" for o in outs)
     spec = dict(writes=tuple(ws), outs=tuple(outs), shape=rng.choice(SHAPES),
-                variant=rng.choice(["full", "full", "shallow"]))
+                variant=rng.choice(["full", "full", "shallow"]), chain=chain)
     touched = [p for p, _ in ws] or U
     interesting = touched + [p for o in outs if o[0] in ("dir", "fset") for p in below(o[2])]
     clock = [2000]
@@ -191,8 +221,8 @@ def gen_case(rng, nsteps):
     return spec, steps
 
 
-def S(writes, outs, shape="list", variant="full"):
-    return dict(writes=tuple(writes), outs=tuple(outs), shape=shape, variant=variant)
+def S(writes, outs, shape="list", variant="full", chain=False):
+    return dict(writes=tuple(writes), outs=tuple(outs), shape=shape, variant=variant, chain=chain)
 
 
 CORPUS = [
@@ -221,6 +251,17 @@ CORPUS = [
     (S([(("f",), b"abc"), (("d1", "a"), b"a")], [("file", "imm", ("f",)), ("dir", "imm", ("d1",)), ("fset", "imm", ("d1",), True),
                                                      ("staging", False, "plain", ("f",), ("g",))], "list"),
      [("run", 2000), ("xremove", ("f",)), ("xremove", ("d1", "a")), ("run", 2001), ("xwrite", ("f",), b"zz", 2001), ("run", 2002)]),
+    # shallow mode: re-creating an older result does not refresh its CallNode timestamp; the stale newer node is looked
+    # up on every later run (re-executions that the property does not forbid; mirrored by the model's `nodes`)
+    (S([], [("dir", "content", ("d3", "s"))], "nested", "shallow"),
+     [("run", 2000), ("xwrite", ("d3", "s", "a"), b"ba", 2001), ("run", 2002), ("xremove", ("d3", "s", "a")), ("run", 2012), ("run", 2013),
+      ("run", 2014)]),
+    # downstream consumer: follows a re-executed upstream result, is replayed when the recorded hashes come back
+    (S([(("f",), b"abc")], [("file", "content", ("f",)), ("dir", "plain", ("d1",))], "list", "full", True),
+     [("run", 2000), ("run", 2001), ("xwrite", ("d1", "a"), b"a", 2001), ("run", 2002), ("xremove", ("f",)), ("run", 2003),
+      ("xremove", ("d1", "a")), ("run", 2004), ("xwrite", ("f",), b"abcd", 2004), ("run", 2005), ("run", 2006)]),
+    (S([(("g",), b"ab")], [("file", "plain", ("g",))], "single", "shallow", True),
+     [("run", 2000), ("xtrunc", ("g",), 2000), ("run", 2001), ("xwrite", ("g",), b"ab", 2000), ("run", 2002), ("run", 2003)]),
     # one invalid leaf deep in a container is enough
     (S([(("f",), b"a"), (("g",), b"b")], [("file", "imm", ("f",)), ("plain", 3), ("file", "plain", ("g",))], "nested", "shallow"),
      [("run", 2000), ("run", 2001), ("xtrunc", ("g",), 2001), ("run", 2002), ("run", 2003)]),
@@ -236,7 +277,8 @@ def model_line(spec, st):
     k = st[0]
     if k == "run":
         ws = " ".join("(%s b%s)" % (r_path(p), d.hex()) for p, d in spec["writes"])
-        return "(run i%d (%s) (%s))" % (st[1], ws, " ".join(r_out(o) for o in spec["outs"]))
+        return "(%s i%d %s (%s) (%s))" % ("chain" if spec.get("chain") else "run", st[1], spec["variant"], ws,
+                                          " ".join(r_out(o) for o in spec["outs"]))
     if k == "xremove":
         return "(xremove %s)" % r_path(st[1])
     if k in ("xtouch", "xtrunc"):
@@ -307,78 +349,70 @@ def run_case(ctx, w, sched, case_id, spec, steps, replies, label):
     n = len(spec["outs"])
     it = iter(replies)
     next(it)
-    prev = None            # leaves (real objects) of the cache entry = last successful run's result
-    rec_keys = None        # the harness's own view of the state each returned leaf named when it was recorded
+    seen = {}              # (leaf spec, recorded digest) -> the harness's own state key when that result was computed
+    nruns = 0
     diverged = False
+    tk = tasks()
     for i, st in enumerate(steps):
         k = st[0]
         if k == "run":
-            # ---- property oracle, part 1: which recorded leaves are still valid (recorded hash == current hash)
-            stale, hash_err = None, None
-            if prev is not None:
-                stale = []
-                for o in prev:
-                    if not is_ext(w, o):
-                        continue
-                    try:
-                        if leaf_hash(o) != w.hash_of(w.fresh(o)):
-                            stale.append(o)
-                    except Exception as e:  # noqa: BLE001
-                        hash_err = e
-                        stale.append(o)
-            altered = []
-            if rec_keys is not None:
-                snap = w.snapshot()
-                altered = [o for o, key in zip(spec["outs"], rec_keys)
-                           if o[0] != "plain" and World.state_keys(o, snap)[1] != key]
             w.clock = st[1]
-            before = _S["count"]
+            before, cbefore = _S["count"], _S["ccount"]
             try:
-                res = sched.run(t(case_id, spec["writes"], spec["outs"], spec["shape"]))
+                expr = t(case_id, spec["writes"], spec["outs"], spec["shape"])
+                if spec.get("chain"):
+                    expr = tk["consume"](expr, spec["shape"], n)
+                res = sched.run(expr)
                 err = None
             except Exception as e:  # noqa: BLE001
                 res, err = None, e
-            executed = _S["count"] - before
+            executed, cexecuted = _S["count"] - before, _S["ccount"] - cbefore
+            nruns += 1
+            word = {0: "replay", 1: "exec"}.get(executed, "exec%d" % executed)
+            leaves = None
             if err is not None:
                 out = "!" + type(err).__name__
-                leaves = None
+            elif spec.get("chain"):
+                out = "(%s) (%s%s)" % (word, {0: "creplay", 1: "cexec"}.get(cexecuted, "cexec%d" % cexecuted),
+                                       "".join(" i%d" % x for x in res))
             else:
                 leaves = flatten(spec["shape"], n, res)
-                out = "(%s %s)" % ({0: "replay", 1: "exec"}.get(executed, "exec%d" % executed),
-                                   " ".join(w.r_hash(leaf_hash(o)) if is_ext(w, o) else "P" for o in leaves))
-            # ---- property oracle, part 2
+                out = "(%s%s)" % (word, "".join(" " + (w.r_hash(leaf_hash(o)) if is_ext(w, o) else "P") for o in leaves))
+            # ---- the property oracle on the real scheduler
+            snap = w.snapshot()
             if err is not None:
-                missing_cf = any(isinstance(o, w.rf.ContentFile) and not o.exists() for o in (prev or [])) or \
-                    any(o[0] == "file" and o[1] == "content" and w.read(o[2]) is None for o in spec["outs"])
-                ctx.violation("C04-contentfile-deleted-output-raises" if missing_cf and isinstance(err, FileNotFoundError)
-                              else "C04-run-raises",
+                missing_cf = isinstance(err, FileNotFoundError) and any(
+                    (o[0] == "file" and o[1] == "content" and tuple(o[2]) not in snap) or
+                    (o[0] == "staging" and o[2] == "content") for o in spec["outs"])
+                ctx.violation("C04-contentfile-deleted-output-raises" if missing_cf else "C04-run-raises",
                               "scheduler.run raised %s instead of (re-)executing the task" % type(err).__name__,
                               case=case, expected="exec or replay", actual=out, kind="history")
             else:
-                if prev is not None and executed == 0 and stale:
-                    ctx.violation("C04-replayed-invalid-result", "a cached result was replayed although %d external leaf/"
-                                  "leaves no longer have the recorded hash" % len(stale), case=case,
-                                  expected="re-execution", actual=out, kind="history")
-                if prev is not None and stale and executed != 1:
-                    ctx.violation("C04-invalid-result-not-reexecuted-once", "an invalid cached result led to %d executions"
-                                  % executed, case=case, expected="exactly 1 execution", actual=out, kind="history")
-                if altered and executed == 0:
-                    ctx.violation("C04-altered-output-replayed", "a cached result was replayed although the harness deleted or "
-                                  "altered (size / mtime / bytes / membership) what %d returned value(s) name: %s"
-                                  % (len(altered), altered[:2]), case=case, expected="re-execution", actual=out, kind="history")
-                if prev is None and executed != 1:
-                    ctx.violation("C04-first-run-not-executed-once", "first run executed the task %d times" % executed,
-                                  case=case, expected="1", actual=out, kind="history")
-                if executed:
-                    for o in leaves:
-                        if is_ext(w, o) and leaf_hash(o) != w.hash_of(w.fresh(o)):
-                            ctx.violation("C04-reexecuted-result-not-current", "after re-execution a returned value's "
-                                          "recorded hash differs from the hash of the current state", case=case,
+                if executed > 1 or cexecuted > 1 or (nruns == 1 and executed != 1):
+                    ctx.violation("C04-wrong-execution-count", "the task ran %d times in one run (first run: %s)"
+                                  % (executed, nruns == 1), case=case, expected="0 or 1 (first run: 1)", actual=out, kind="history")
+                if leaves is not None:
+                    for o, sp in zip(leaves, spec["outs"]):
+                        if not is_ext(w, o):
+                            continue
+                        cur_key = World.state_keys(sp, snap)[1]
+                        if leaf_hash(o) != w.hash_of(w.fresh(o)):
+                            ctx.violation("C04-replayed-invalid-result" if executed == 0 else "C04-reexecuted-result-not-current",
+                                          "the %s result holds %s whose recorded hash is not its current hash"
+                                          % ("replayed" if executed == 0 else "new", sp), case=case,
                                           expected=w.r_hash(w.hash_of(w.fresh(o))), actual=w.r_hash(leaf_hash(o)), kind="history")
-                prev = leaves
-                if executed:
-                    snap = w.snapshot()
-                    rec_keys = [None if o[0] == "plain" else World.state_keys(o, snap)[1] for o in spec["outs"]]
+                        if executed:
+                            seen.setdefault((sp, leaf_hash(o)), cur_key)
+                        elif seen.get((sp, leaf_hash(o)), cur_key) != cur_key:
+                            ctx.violation("C04-altered-output-replayed", "a cached result was replayed although what %s names was "
+                                          "deleted or altered (size / mtime / bytes / membership) since it was computed" % (sp,),
+                                          case=case, expected="re-execution", actual=out, kind="history")
+                else:
+                    want = [expected_observation(sp, snap) for sp in spec["outs"]]
+                    if list(res) != want:
+                        ctx.violation("C04-downstream-result-not-current", "consume(make()) returned observations that do not "
+                                      "reflect the current files (upstream %s, consumer %s)" % (word, "ran" if cexecuted else "replayed"),
+                                      case=case, expected=want, actual=list(res), kind="history")
         elif k == "xremove":
             w.xremove(st[1])
             out = "ok"
